@@ -69,7 +69,8 @@ pub fn one<S: Src, const P: u8, const L: usize, const NT: usize, const NV: usize
             chk!(s, P, C02, unchanged(&out, &prior, 0), "bad PEC: no response byte is written");
             chk!(s, P, C02, req_eid == cfg.req_eid && resp_eid == cfg.resp_eid, "bad PEC: the EID is unchanged");
             chk!(s, P, C02, ctx.verif_get_vendor_id_selector() == cfg.sel, "bad PEC: the vendor selector state is unchanged (so no later output changes)");
-            cov!(s, P, C02, acc_req == false && rd.hdr_ok && rd.is_control && rd.is_request && cmd == 0x01 && L == 14, "proc: Set Endpoint ID request with a corrupted PEC");
+            cov!(s, P, C02, rd.hdr_ok && rd.is_control && rd.is_request && r.is_err(), "proc: control request with a corrupted PEC rejected");
+            covopt!(s, P, C02, rd.hdr_ok && rd.is_control && rd.is_request && cmd == 0x01 && L == 14, "proc: Set Endpoint ID request with a corrupted PEC");
         } else {
             cov!(s, P, C02, answered.is_some(), "proc: a request with a good PEC is answered");
         }
@@ -160,12 +161,12 @@ pub fn one<S: Src, const P: u8, const L: usize, const NT: usize, const NV: usize
             s.assume(b[12] >= 0x01 && b[12] <= 0xFE);
             chk!(s, P, C13, req_eid == b[12] && resp_eid == b[12], "accepted Set/Force assignment: both halves report the assigned EID");
             chk!(s, P, C13, answered == Some(16) && out[11] == 0x00 && (out[12] >> 4) & 3 == 0 && out[13] == b[12], "accepted assignment is answered with Success, status accepted and the new EID");
-            cov!(s, P, C13, b[12] != cfg.resp_eid && b[11] == 1, "proc: Force EID to a new value");
+            covopt!(s, P, C13, b[12] != cfg.resp_eid && b[11] == 1, "proc: Force EID to a new value");
         } else {
             chk!(s, P, C13, req_eid == cfg.req_eid && resp_eid == cfg.resp_eid, "anything but an accepted Set/Force assignment leaves the EID unchanged");
             if acc_req && cmd == 1 && L == 14 && b[11] == 3 {
                 chk!(s, P, C13, answered == Some(16) && out[11] == 0x02, "Set Discovered Flag is answered with the invalid-data completion code");
-                cov!(s, P, C13, true, "proc: Set Discovered Flag");
+                covopt!(s, P, C13, true, "proc: Set Discovered Flag");
             }
             if acc_req && cmd == 2 {
                 chk!(s, P, C13, answered == Some(16) && out[11] == 0x00 && out[12] == cfg.resp_eid, "Get Endpoint ID reports the current EID");
